@@ -55,7 +55,9 @@ def registry():
     return out
 
 
-def prepare(repo="/repo", tag="s"):
+def prepare(repo="/repo", tag="s", files=None):
+    """files: harness module files to attach (None = all).  Only the modules a check needs are
+    attached, so a harness of another property that no longer compiles cannot disturb it."""
     dst = os.path.join(WORK, tag)
     if os.path.exists(dst):
         shutil.rmtree(dst)
@@ -64,6 +66,8 @@ def prepare(repo="/repo", tag="s"):
     missing = []
     for fn in sorted(os.listdir(KDIR)):
         if not fn.endswith("_kani.rs"):
+            continue
+        if files is not None and fn not in files:
             continue
         rel = "src/internal/%s.rs" % fn[:-len("_kani.rs")]
         p = os.path.join(dst, rel)
@@ -77,6 +81,8 @@ def prepare(repo="/repo", tag="s"):
     lost = []
     if os.path.exists(cj):
         for c in json.load(open(cj)):
+            if files is not None and c.get("harness_file") not in files:
+                continue
             p = os.path.join(dst, c["file"])
             s = open(p).read()
             m = re.search(c["anchor"], s)
@@ -216,8 +222,15 @@ if __name__ == "__main__":
         for h in registry():
             print(h)
     else:
-        dst, missing, lost = prepare("/repo", "cli")
+        reg = {h["name"]: h for h in registry()}
+        files = set(reg[n]["file"] for n in sys.argv[1:] if n in reg) or None
+        dst, missing, lost = prepare("/repo", "cli", files)
         print("missing", missing, "lost", lost)
         r = run(dst, sys.argv[1:], timeout_s=300)
-        print(json.dumps(r, indent=1)[:6000])
+        json.dump(r, open("/tmp/kani_cli_last.json", "w"), indent=1)
+        for k, v in r.items():
+            if k.startswith("_"):
+                print(k, v)
+            else:
+                print("%-36s %-10s %6s s %5s checks  %s %s" % (k, v["status"], v.get("time_s"), v.get("checks"), (v.get("reason") or "")[:200].replace("\n", " "), [f["description"] for f in v["failed_checks"]][:3]))
         cleanup(dst)
